@@ -1,5 +1,7 @@
 import CpModel.Proto
 import CpModel.UrlEnc
+import CpModel.UrlEncReq
+import CpModel.UrlEncBind
 /-!
   Driver for C03 (query-string / form parameters).  One case per line.
 
@@ -14,6 +16,22 @@ import CpModel.UrlEnc
     rec  <hex>                 recode_path_qs on the query       → `T <text>`
     att  <declared|N> <configured|N>   attempt_charsets          → `A <charsets>`
 
+    reqx <uri> <qsenc> <path-hex> <qs-hex> <pb 0|1> <len 0|1> <procs> <ctype> <attempts> <body-hex> <fields>
+         whole request, every body dimension (`handleX`)                 → `H <params>` | `S <code>`
+    resp <sig> <nargs> <the eleven reqx fields>   `respond`           → `H <params>` | `S <code>`
+    bind <sig> <nargs> <kwargs>   PageHandler.__call__ / test_callable_spec
+                                                    → `ok=<0|1> spec=<N|code> dec=<C|code>`
+    sel  <procs> <ctype>       Entity.process processor choice     → `u` | `f` | `o` | `p` | `n`
+    rcp  <uri> <path-hex> <qs-hex>   recode_path_qs                → `T <text>`
+    pparts <old 0|1> <fields>  multipart parameter assembly       → `P <params>` | `E 400`
+    tfb  <ctype> <attempts>    RequestBody.__init__ text/* rule    → `A <charsets>`
+    patt <declared|N>          Part.attempt_charsets               → `A <charsets>`
+
+  procs: `D` (the shipped table) | `~` (empty) | `<key-text>:<u|f|o|p>` joined by `,`.
+  fields: `~` | `<name-text|N>:<file 0|1>:<value-hex>:<charsets>` joined by `|`.
+  sig: `<selfname-text|N>;<self posonly 0|1>;<params>;<posOnly>;<defaults>;<varargs 0|1>;<kwonly>;<varkw 0|1>`,
+       params = texts joined by `,` (`~` = none), kwonly = `<name-text>:<has default 0|1>` joined by `,` (`~` = none).
+  kwargs: `~` | `<key-text>:<from body 0|1>` joined by `,`.
   charsets: utf8 latin1 ascii utf16 utf16le utf16be unknown, lists joined by `,`.
   text: decimal code points joined by `.`, `-` = empty.  params: `~` = empty dict, else entries
   `<key>:<val>` joined by `|`, val = `s<text>` | `i<nat>` | `l<atom>,<atom>…`, atom = `s<text>` | `i<nat>`.
@@ -39,6 +57,7 @@ def parseCsList (s : String) : Option (List Charset) :=
 def showAtom : Atom → String
   | .str s => "s" ++ Proto.text s
   | .int n => "i" ++ toString n
+  | .part n => "p" ++ toString n
 
 def showVal : Val → String
   | .one a => showAtom a
@@ -51,8 +70,130 @@ def showOptText : Option Text → String
   | some t => "T " ++ Proto.text t
   | none => "E"
 
+def bool? (s : String) : Option Bool := if s == "1" then some true else if s == "0" then some false else none
+
+def parseProcKind (s : String) : Option Proc :=
+  if s == "u" then some .urlencoded else if s == "f" then some .formData else if s == "o" then some .oldMultipart
+  else if s == "p" then some .partsOnly else none
+
+def showProc : Proc → String
+  | .urlencoded => "u" | .formData => "f" | .oldMultipart => "o" | .partsOnly => "p" | .unread => "n"
+
+def parseProcs (s : String) : Option (List (Text × Proc)) :=
+  if s == "D" then some defaultProcessors
+  else if s == "~" then some []
+  else (s.splitOn ",").mapM fun e =>
+    match e.splitOn ":" with
+    | [k, p] => do
+      let k ← Proto.untext? k
+      let p ← parseProcKind p
+      pure (k, p)
+    | _ => none
+
+def parseField (e : String) : Option Field :=
+  match e.splitOn ":" with
+  | [n, f, v, a] => do
+    let name ← if n == "N" then some none else (Proto.untext? n).map some
+    let file ← bool? f
+    let value ← Proto.unhex? v
+    let attempts ← parseCsList a
+    pure { name := name, file := file, value := value, attempts := attempts }
+  | _ => none
+
+def parseFields (s : String) : Option (List Field) :=
+  if s == "~" then some [] else (s.splitOn "|").mapM parseField
+
+def parseNames (s : String) : Option (List Text) :=
+  if s == "~" then some [] else (s.splitOn ",").mapM Proto.untext?
+
+def parseFlagged (s : String) : Option (List (Text × Bool)) :=
+  if s == "~" then some [] else (s.splitOn ",").mapM fun e =>
+    match e.splitOn ":" with
+    | [k, b] => do
+      let k ← Proto.untext? k
+      let b ← bool? b
+      pure (k, b)
+    | _ => none
+
+def parseSig (s : String) : Option Sig :=
+  match s.splitOn ";" with
+  | [sn, sp, ps, po, nd, va, ko, vk] => do
+    let sp ← bool? sp
+    let self? ← if sn == "N" then some none else (Proto.untext? sn).map fun n => some (n, sp)
+    let params ← parseNames ps
+    let po ← po.toNat?
+    let nd ← nd.toNat?
+    let va ← bool? va
+    let ko ← parseFlagged ko
+    let vk ← bool? vk
+    pure { self? := self?, params := params, posOnly := po, defaults := nd, varargs := va, kwonly := ko, varkw := vk }
+  | _ => none
+
+def parseReqX (uri enc path qs pb len procs ct att body flds : String) : Option ReqX := do
+  let uri ← parseCs uri
+  let enc ← parseCs enc
+  let path ← Proto.unhex? path
+  let qs ← Proto.unhex? qs
+  let pb ← bool? pb
+  let len ← bool? len
+  let procs ← parseProcs procs
+  let ct ← Proto.untext? ct
+  let att ← parseCsList att
+  let body ← Proto.unhex? body
+  let flds ← parseFields flds
+  pure { path := path, qs := qs, uriEnc := uri, qsEnc := enc, processBody := pb, hasLength := len,
+         processors := procs, ctype := ct, attempts := att, body := body, fields := flds }
+
+def showOutcome : Outcome → String
+  | .handler kw => "H " ++ showParams kw
+  | .status code => "S " ++ toString code
+
 def step (line : String) : String :=
   match Proto.fields line with
+  | ["reqx", uri, enc, path, qs, pb, len, procs, ct, att, body, flds] =>
+    match parseReqX uri enc path qs pb len procs ct att body flds with
+    | some r => showOutcome (handleX r)
+    | none => "bad-op"
+  | ["resp", sig, nargs, uri, enc, path, qs, pb, len, procs, ct, att, body, flds] =>
+    match parseSig sig, nargs.toNat?, parseReqX uri enc path qs pb len procs ct att body flds with
+    | some s, some n, some r => showOutcome (respond r s n)
+    | _, _, _ => "bad-op"
+  | ["bind", sig, nargs, kwargs] =>
+    match parseSig sig, nargs.toNat?, parseFlagged kwargs with
+    | some s, some n, some kw =>
+      let ok := pyCallOk s n (kw.map (·.1))
+      let spec := match specCheck s n kw with
+        | some c => toString c
+        | none => "N"
+      let dec := match bindDecision s n kw with
+        | .call => "C"
+        | .status c => toString c
+      "ok=" ++ (if ok then "1" else "0") ++ " spec=" ++ spec ++ " dec=" ++ dec
+    | _, _, _ => "bad-op"
+  | ["sel", procs, ct] =>
+    match parseProcs procs, Proto.untext? ct with
+    | some t, some c => showProc (selectProc t c)
+    | _, _ => "bad-op"
+  | ["rcp", uri, path, qs] =>
+    match parseCs uri, Proto.unhex? path, Proto.unhex? qs with
+    | some e, some p, some q => "T " ++ Proto.text (recodePathQs e p q)
+    | _, _, _ => "bad-op"
+  | ["pparts", old, flds] =>
+    match bool? old, parseFields flds with
+    | some o, some f =>
+      match partsParams o 0 f [] with
+      | some p => "P " ++ showParams p
+      | none => "E 400"
+    | _, _ => "bad-op"
+  | ["tfb", ct, att] =>
+    match Proto.untext? ct, parseCsList att with
+    | some c, some a => "A " ++ ",".intercalate ((textFallback c a).map showCs)
+    | _, _ => "bad-op"
+  | ["patt", d] =>
+    let d? : Option (Option Charset) := if d == "N" then some none else (parseCs d).map some
+    match d? with
+    | some dd => "A " ++ ",".intercalate ((partAttempts dd).map showCs)
+    | none => "bad-op"
   | ["req", enc, qs, decl, conf, body] =>
     let d? : Option (Option Charset) := if decl == "N" then some none else (parseCs decl).map some
     let c? : Option (Option (List Charset)) := if conf == "N" then some none else (parseCsList conf).map some
